@@ -11,6 +11,7 @@ import VsbModel.Model.Walk
 import VsbModel.Model.Config
 import VsbModel.Model.FileReader
 import VsbModel.Model.Restore
+import VsbModel.Model.SelfContained
 import VsbModel.Model.FsTrace
 import VsbModel.Model.Proto
 import VsbModel.Model.Upload
@@ -526,9 +527,14 @@ def opRestore (j : Json) : Except String Json := do
     let archive ← (← (← b.getObjVal? "archive").getArr?).toList.mapM parseEntry
     pure ({ name := name, manifest := manifest, archive := archive, archiveComplete := boolField b "complete" true } : Backup String Nat))
   let target ← (← j.getObjVal? "target").getNat?
+  -- the hypotheses of `restore_exact_selfcontained`, evaluated on the target backup
+  let sc : Json := match group[target]? with
+    | some b => Json.mkObj [("wf", wfCheck b.archive), ("manifest_eq", decide (b.manifest = some (manifestOf hashOf b.archive))),
+        ("complete", b.archiveComplete), ("fs", fsJson (fsOf b.archive))]
+    | none => Json.null
   match restore hashOf group target with
-  | .err fs => pure (Json.mkObj [("result", "err"), ("fs", fsJson fs)])
-  | .done fs ok => pure (Json.mkObj [("result", "done"), ("ok", ok), ("fs", fsJson fs)])
+  | .err fs => pure (Json.mkObj [("result", "err"), ("fs", fsJson fs), ("selfcontained", sc)])
+  | .done fs ok => pure (Json.mkObj [("result", "done"), ("ok", ok), ("fs", fsJson fs), ("selfcontained", sc)])
 
 /-! ## traces -/
 def pathJson (p : List String) : Json := Json.arr (p.map Json.str).toArray
